@@ -5,6 +5,7 @@ import tempfile
 import time
 import z3
 
+FIRST_TRY_MS = 3000
 OUT_TMP = os.path.join(os.path.dirname(os.path.dirname(os.path.abspath(__file__))), "out", "tmp")
 
 
@@ -50,7 +51,7 @@ def solve_one(ob, timeout_ms=10000, use_cvc5=True, recheck_cvc5=False):
     """-> dict(name, status, backend, time_s, model)"""
     t0 = time.time()
     s = z3.Solver()
-    s.set("timeout", timeout_ms)
+    s.set("timeout", min(timeout_ms, FIRST_TRY_MS))
     s.add(*ob["pc"])
     s.add(z3.Not(ob["goal"]))
     r = s.check()
@@ -60,10 +61,13 @@ def solve_one(ob, timeout_ms=10000, use_cvc5=True, recheck_cvc5=False):
             model = model_to_dict(s.model())
         except Exception:
             model = {}
-    elif r == z3.unknown and use_cvc5:
-        c = run_cvc5(smt2_of(ob["pc"], ob["goal"]), max(5, timeout_ms / 1000))
-        if c in ("unsat", "sat"):
-            status, backend = c, "cvc5"
+    elif r == z3.unknown:
+        if solve_relaxed(ob["pc"], ob["goal"], timeout_ms=min(timeout_ms, 8000)) == "unsat":
+            status, backend = "unsat", "z3-nlsat(real relaxation)"
+        elif use_cvc5:
+            c = run_cvc5(smt2_of(ob["pc"], ob["goal"]), max(5, timeout_ms / 1000))
+            if c in ("unsat", "sat"):
+                status, backend = c, "cvc5"
     res = {"name": ob["name"], "status": status, "backend": backend, "time_s": round(time.time() - t0, 4), "model": model,
            "meta": ob.get("meta", {})}
     if recheck_cvc5 and status == "unsat" and backend == "z3":
@@ -78,3 +82,133 @@ def vacuity_check(pc, timeout_ms=2000):
     s.set("timeout", timeout_ms)
     s.add(*pc)
     return str(s.check())
+
+
+# ------------------------------------------------------------------------------ real relaxation (QF_NRA)
+def real_relaxation(pc, goal):
+    """A weaker-hypotheses / stronger-goal version of `pc |= goal` in pure quantifier-free real arithmetic:
+    quantified hypotheses are dropped, applications of uninterpreted functions become fresh constants (one per
+    syntactically distinct term), integers are relaxed to reals. If the relaxation is valid, so is the original.
+    Returns (hyps, goal') or None when the goal itself cannot be relaxed."""
+    memo = {}
+    fresh_ix = [0]
+
+    def fresh_const(sort_is_bool):
+        fresh_ix[0] += 1
+        return z3.Bool(f"rx_b{fresh_ix[0]}") if sort_is_bool else z3.Real(f"rx_r{fresh_ix[0]}")
+
+    class Skip(Exception):
+        pass
+
+    def conv(t):
+        key = t.get_id()
+        if key in memo:
+            return memo[key]
+        r = _conv(t)
+        memo[key] = r
+        return r
+
+    def _conv(t):
+        if z3.is_quantifier(t) or z3.is_var(t):
+            raise Skip()
+        if z3.is_int_value(t):
+            return z3.RealVal(t.as_long())
+        if z3.is_rational_value(t) or z3.is_true(t) or z3.is_false(t):
+            return t
+        if z3.is_algebraic_value(t):
+            return t
+        if not z3.is_app(t):
+            raise Skip()
+        d = t.decl()
+        k = d.kind()
+        ch = t.children()
+        if k == z3.Z3_OP_UNINTERPRETED:
+            if t.sort().kind() in (z3.Z3_INT_SORT, z3.Z3_REAL_SORT):
+                return z3.Real("rx_" + str(t).replace(" ", "_").replace("\n", "")[:80] + f"_{t.get_id()}") if ch else z3.Real("rx_" + d.name())
+            if t.sort().kind() == z3.Z3_BOOL_SORT:
+                return z3.Bool("rx_" + str(t).replace(" ", "_").replace("\n", "")[:80] + f"_{t.get_id()}") if ch else z3.Bool("rx_" + d.name())
+            raise Skip()
+        if k in (z3.Z3_OP_TO_REAL, z3.Z3_OP_TO_INT):
+            if k == z3.Z3_OP_TO_INT:
+                raise Skip()
+            return conv(ch[0])
+        c = [conv(x) for x in ch]
+        if k == z3.Z3_OP_ADD:
+            return z3.Sum(c)
+        if k == z3.Z3_OP_SUB:
+            r = c[0]
+            for x in c[1:]:
+                r = r - x
+            return r
+        if k == z3.Z3_OP_UMINUS:
+            return -c[0]
+        if k == z3.Z3_OP_MUL:
+            r = c[0]
+            for x in c[1:]:
+                r = r * x
+            return r
+        if k == z3.Z3_OP_DIV:
+            return c[0] / c[1]
+        if k in (z3.Z3_OP_IDIV, z3.Z3_OP_MOD, z3.Z3_OP_REM, z3.Z3_OP_POWER):
+            raise Skip()
+        if k == z3.Z3_OP_LE:
+            return c[0] <= c[1]
+        if k == z3.Z3_OP_LT:
+            return c[0] < c[1]
+        if k == z3.Z3_OP_GE:
+            return c[0] >= c[1]
+        if k == z3.Z3_OP_GT:
+            return c[0] > c[1]
+        if k == z3.Z3_OP_EQ:
+            if ch[0].sort().kind() in (z3.Z3_INT_SORT, z3.Z3_REAL_SORT, z3.Z3_BOOL_SORT):
+                return c[0] == c[1]
+            raise Skip()
+        if k == z3.Z3_OP_DISTINCT:
+            if ch[0].sort().kind() in (z3.Z3_INT_SORT, z3.Z3_REAL_SORT, z3.Z3_BOOL_SORT):
+                return z3.Distinct(*c)
+            raise Skip()
+        if k == z3.Z3_OP_ITE:
+            return z3.If(c[0], c[1], c[2])
+        if k == z3.Z3_OP_AND:
+            return z3.And(*c)
+        if k == z3.Z3_OP_OR:
+            return z3.Or(*c)
+        if k == z3.Z3_OP_NOT:
+            return z3.Not(c[0])
+        if k == z3.Z3_OP_IMPLIES:
+            return z3.Implies(c[0], c[1])
+        if k == z3.Z3_OP_IFF:
+            return c[0] == c[1]
+        if k == z3.Z3_OP_XOR:
+            return z3.Xor(c[0], c[1])
+        raise Skip()
+    hyps = []
+    for h in pc:
+        try:
+            hyps.append(conv(h))
+        except Skip:
+            continue     # dropping a hypothesis only weakens what we may use
+    try:
+        g = conv(goal)
+    except Skip:
+        return None
+    return hyps, g
+
+
+def solve_relaxed(pc, goal, timeout_ms=5000):
+    """-> 'unsat' if the real relaxation proves the obligation, else 'unknown'"""
+    rel = real_relaxation(pc, goal)
+    if rel is None:
+        return "unknown"
+    hyps, g = rel
+    for mk in (lambda: z3.Tactic("qfnra-nlsat").solver(), lambda: z3.SolverFor("QF_NRA"), lambda: z3.Solver()):
+        try:
+            s = mk()
+            s.set("timeout", timeout_ms)
+            s.add(*hyps)
+            s.add(z3.Not(g))
+            if s.check() == z3.unsat:
+                return "unsat"
+        except z3.Z3Exception:
+            continue
+    return "unknown"
